@@ -538,7 +538,7 @@ Definition numeric_literal_spec (s : ustr) (strict : bool) : lit_res :=
   match nondecimal_prefix s with
   | Some (r, body) =>
       match strip_sep body with
-      | Some (_ :: _ as t) => match all_radix_digits r t with
+      | Some ((_ :: _) as t) => match all_radix_digits r t with
                               | Some ds => LNum (round_nneg (num_of r ds) 1)
                               | None => LSyntaxError
                               end
